@@ -1,30 +1,261 @@
 package main
 
+// Iterator call-backs: etreeutils.NSFindIterate(el, namespace, tag, handler) is a dependency whose
+// assumed contract is an iteration schema (DESIGN.md §2.6):
+//
+//   matches := MatchAt(el, ns, tag, 0 .. NMatch(el, ns, tag)-1)   (ghost sequence fixed at the call)
+//   for k in range matches { if e := handler(ctx_k, matches[k]); e != nil {
+//        if e == ErrTraversalHalted { return nil }; return e } }
+//   return nil            -- plus: at any step the library may return a fresh non-nil error
+//
+// The engine treats the call as a loop cut whose body is the closure: `iter <n>` clauses of the
+// calling function's contract give the invariant (over $k = number of completed visits) and the
+// `visit` clauses (facts every successful visit establishes; old(..) = state at the start of that
+// visit, $m = the visited element).
+
 import (
+	"fmt"
 	"go/types"
 
 	"golang.org/x/tools/go/ssa"
 )
 
-// iterator call-backs (etreeutils.NSFindIterate): see DESIGN.md §2.6. Filled in by iter_impl.go.
-
 var iterSpecKeys = map[string]bool{}
 
 type iterCtx struct {
-	spec    *FuncSpec
-	key     string
-	site    int
-	in      ssa.Instruction
-	args    []Value
-	k       *Term
-	handler Value
-	lspec   *LoopSpec
+	spec       *FuncSpec
+	key        string
+	site       int
+	in         ssa.Instruction
+	args       []Value
+	k          *Term
+	m          Value
+	lspec      *LoopSpec
+	visitStart *State
+	callerFn   *ssa.Function
+}
+
+func (x *Exec) iterEnv(fr *Frame, k *Term, m *Value) map[string]Value {
+	env := map[string]Value{}
+	if fr.fn == x.top {
+		env = x.specEnv(nil)
+	}
+	env["$k"] = Value{T: intT, Term: k}
+	if m != nil {
+		env["$m"] = *m
+	}
+	return env
+}
+
+func (x *Exec) iterSpecFor(fr *Frame, ord int) *LoopSpec {
+	if fr.fn == x.top {
+		return x.spec.Iters[ord]
+	}
+	if sp := x.w.FuncSpecs[fnKey(fr.fn)]; sp != nil {
+		return sp.Iters[ord]
+	}
+	return nil
+}
+
+// iterOrdinal numbers the iterator call sites of a function in source order.
+func (x *Exec) iterOrdinal(fn *ssa.Function, in ssa.Instruction) int {
+	n := 0
+	for _, b := range fn.Blocks {
+		for _, j := range b.Instrs {
+			if j == in {
+				return n
+			}
+			if ci, ok := j.(ssa.CallInstruction); ok {
+				if callee := ci.Common().StaticCallee(); callee != nil && iterSpecKeys[fnKey(callee)] {
+					n++
+				}
+			}
+		}
+	}
+	return -1
+}
+
+func (x *Exec) checkIterClauses(s *State, fr *Frame, ord int, cs []*Clause, kind, what string, env map[string]Value, old *State, in ssa.Instruction) {
+	fname := shortFn(fnKey(fr.fn))
+	ctx := &EvalCtx{x: x, st: s, old: old, env: env, sf: funcHome[x.spec], fr: fr, pos: in.Pos()}
+	for ci, c := range cs {
+		label := c.Label
+		if label == "" {
+			label = fmt.Sprintf("i%d", ci)
+		}
+		g := x.evalBool(ctx, c.Expr)
+		tags := c.Tags
+		if len(tags) == 0 {
+			tags = x.ownerTags
+		}
+		for k, cj := range conjuncts(g) {
+			nm := fmt.Sprintf("iter%d#%s.%s@%s", ord, label, what, fname)
+			if k > 0 {
+				nm = fmt.Sprintf("iter%d#%s.%d.%s@%s", ord, label, k, what, fname)
+			}
+			x.oblige(s, kind, nm, cj, tags, in.Pos(), label)
+		}
+	}
+}
+
+func (x *Exec) assumeIterInvariants(s *State, fr *Frame, lspec *LoopSpec, env map[string]Value, in ssa.Instruction) {
+	if lspec == nil {
+		return
+	}
+	ctx := &EvalCtx{x: x, st: s, old: x.entry, env: env, sf: funcHome[x.spec], fr: fr, pos: in.Pos()}
+	for _, c := range lspec.Invariants {
+		s.assume(x.evalBool(ctx, c.Expr))
+	}
+}
+
+func (x *Exec) ghostApp(name string, sort string, args ...*Term) *Term {
+	var sorts []string
+	for _, a := range args {
+		sorts = append(sorts, a.Sort)
+	}
+	x.w.Reg.DeclareFunc("ghost:"+name, sorts, sort)
+	return x.w.Reg.Apply("ghost:"+name, args...)
 }
 
 func (x *Exec) callIterator(s *State, fr *Frame, spec *FuncSpec, key string, args []Value, sig *types.Signature, in ssa.Instruction) ([]Value, bool) {
-	panic(x.subsetf("iterator schema not implemented"))
+	if len(args) != 4 {
+		panic(x.subsetf("iterator schema expects (el, namespace, tag, handler)"))
+	}
+	el, ns, tag, h := args[0], args[1], args[2], args[3]
+	if h.Clo == nil {
+		panic(x.subsetf("iterator handler is not a closure literal known at the call site"))
+	}
+	ord := x.iterOrdinal(fr.fn, in)
+	lspec := x.iterSpecFor(fr, ord)
+	x.safeNil(s, fr, el, in.Pos(), in)
+	errT := sig.Results().At(0).Type()
+	nmatch := x.ghostApp("NMatch", SInt, el.Term, ns.Term, tag.Term)
+	s.assume(Ge(nmatch, IntT(0)))
+
+	// invariant holds before the first visit
+	if lspec != nil {
+		x.checkIterClauses(s, fr, ord, lspec.Invariants, "inv.init", "init", x.iterEnv(fr, IntT(0), nil), x.entry, in)
+	}
+	// arbitrary iteration: forget what the handler may write
+	m := newModSet()
+	var mc *ssa.MakeClosure
+	if ci, ok := in.(ssa.CallInstruction); ok {
+		for _, a := range ci.Common().Args {
+			if c := findClosure(a, 0); c != nil {
+				mc = c
+			}
+		}
+	}
+	if mc == nil {
+		panic(x.subsetf("cannot find the handler closure of the iterator call"))
+	}
+	x.modsOfClosure(m, fr.fn, mc, map[*ssa.Function]bool{})
+	x.havocMods(s, fr, m, nil)
+	k := x.w.Reg.Fresh("iter.k", SInt)
+	s.assume(And(Le(IntT(0), k), Le(k, nmatch)))
+	x.assumeIterInvariants(s, fr, lspec, x.iterEnv(fr, k, nil), in)
+	s.path = append(s.path, fmt.Sprintf("iter%d", ord))
+
+	call, _ := in.(*ssa.Call)
+	finish := func(st *State, errTerm *Term, tag string) {
+		// the iterate call returns errTerm in state st: continue the caller
+		f := st.top()
+		if call != nil {
+			x.bindResult(st, f, call, []Value{{T: errT, Term: errTerm}})
+		}
+		st.path = append(st.path, tag)
+		x.work = append(x.work, st)
+	}
+	// (a) all matches visited
+	sa := x.fork(s)
+	sa.assume(Eq(k, nmatch))
+	if !sa.dead {
+		finish(sa, x.w.INil(), "iter.done")
+	}
+	// (b) the library gives up with its own error (namespace resolution, traversal limits)
+	sb := x.fork(s)
+	libErr := x.w.Reg.Fresh("iter.liberr", SIface)
+	sb.assume(Neq(libErr, x.w.INil()))
+	finish(sb, libErr, "iter.liberr")
+	// (c) visit match k
+	s.assume(Lt(k, nmatch))
+	mt := x.ghostApp("MatchAt", SInt, el.Term, ns.Term, tag.Term, k)
+	s.assume(And(Neq(mt, IntT(0)), Le(IntT(0), mt), Le(mt, Add(Var("alloc0", SInt), IntT(int64(s.nalloc))))))
+	mv := Value{T: h.Clo.Fn.Params[1].Type(), Term: mt}
+	// per-visit element facts of the (assumed) iteration schema
+	{
+		env := x.bindSpecParams(spec, args, sig)
+		env["$m"] = mv
+		env["$k"] = Value{T: intT, Term: k}
+		ectx := &EvalCtx{x: x, st: s, old: s, env: env, sf: funcHome[spec], atCall: true}
+		for _, c := range spec.Ensures {
+			s.assume(x.evalBool(ectx, c.Expr))
+		}
+	}
+	ctxv := x.freshValue(s, h.Clo.Fn.Params[0].Type(), "iter.ctx")
+	ic := &iterCtx{spec: spec, key: key, site: ord, in: in, args: args, k: k, m: mv, lspec: lspec, visitStart: s.snapshot(), callerFn: fr.fn}
+	x.inline(s, fr, h.Clo.Fn, []Value{ctxv, mv}, h.Clo.Bind, in)
+	s.top().iter = ic
+	s.top().callSite = nil
+	return nil, true
 }
 
-func (x *Exec) iterHandlerReturned(s *State, caller *Frame, fr *Frame, rs []Value) bool {
-	panic(x.subsetf("iterator schema not implemented"))
+// iterHandlerReturned is called when a handler frame returns; `caller` is the frame that made the iterator call.
+func (x *Exec) iterHandlerReturned(s *State, caller *Frame, hfr *Frame, rs []Value) bool {
+	ic := hfr.iter
+	errT := rs[0]
+	call, _ := ic.in.(*ssa.Call)
+	isNil := Eq(errT.Term, x.w.INil())
+	// success: visit clauses and invariant at k+1; the path ends (loop cut)
+	ok := x.fork(s)
+	ok.assume(isNil)
+	if !ok.dead {
+		ofr := ok.top()
+		if ic.lspec != nil {
+			env := x.iterEnv(ofr, Add(ic.k, IntT(1)), &ic.m)
+			x.checkIterClauses(ok, ofr, ic.site, ic.lspec.Visits, "inv.step", "visit", env, ic.visitStart, ic.in)
+			x.checkIterClauses(ok, ofr, ic.site, ic.lspec.Invariants, "inv.step", "step", env, x.entry, ic.in)
+		}
+	}
+	// failure: the iterate call returns nil for the halt sentinel, the handler's error otherwise
+	s.assume(Not(isNil))
+	if s.dead {
+		return false
+	}
+	halted := Var("g:etreeutils.ErrTraversalHalted", SIface)
+	res := Ite(Eq(errT.Term, halted), x.w.INil(), errT.Term)
+	if call != nil {
+		x.bindResult(s, caller, call, []Value{{T: errT.T, Term: res}})
+	}
+	s.path = append(s.path, "iter.handler-error")
+	return true
+}
+
+// findClosure traces a function-typed SSA value back to the MakeClosure that produced it
+// (through conversions and a local variable with a single closure store).
+func findClosure(v ssa.Value, depth int) *ssa.MakeClosure {
+	if depth > 6 {
+		return nil
+	}
+	switch a := v.(type) {
+	case *ssa.MakeClosure:
+		return a
+	case *ssa.ChangeType:
+		return findClosure(a.X, depth+1)
+	case *ssa.UnOp:
+		if al, ok := a.X.(*ssa.Alloc); ok && al.Referrers() != nil {
+			var found *ssa.MakeClosure
+			n := 0
+			for _, r := range *al.Referrers() {
+				if st, ok := r.(*ssa.Store); ok && st.Addr == al {
+					n++
+					found = findClosure(st.Val, depth+1)
+				}
+			}
+			if n == 1 {
+				return found
+			}
+		}
+	}
+	return nil
 }
